@@ -7,6 +7,7 @@ import (
 	"bytes"
 	"context"
 	"encoding/json"
+	"errors"
 	"fmt"
 	"os"
 	"os/exec"
@@ -23,6 +24,7 @@ type replayCase struct {
 	Key     string   `json:"key"`
 	Obs     []string `json:"obs,omitempty"`
 	Race    bool     `json:"race,omitempty"`
+	Sched   bool     `json:"sched,omitempty"` // schedule-dependent: native confirmation by repeated runs
 }
 
 type replayResult struct {
@@ -72,6 +74,13 @@ func TestVerifReplay(t *testing.T) {
 		}
 	}
 	outcome, detail, obs := zzverif.Run(c.Vector, to, f)
+	if n, _ := strconv.Atoi(os.Getenv("VERIF_REPEAT")); n > 1 {
+		// schedule-dependent case: repeat until something other than "ok" happens
+		stop := time.Now().Add(8 * time.Second)
+		for r := 1; r < n && outcome == "ok" && time.Now().Before(stop); r++ {
+			outcome, detail, obs = zzverif.Run(c.Vector, to, f)
+		}
+	}
 	ob, _ := json.Marshal(obs)
 	fmt.Printf("\nVERIF-OUTCOME\t%%d\t%%s\t%%s\n", k, outcome, string(ob))
 	if detail != "" {
@@ -132,6 +141,11 @@ func replay(pkgPath string, harnessNames []string, cases []replayCase, race bool
 	}
 	results := make([]replayResult, len(cases))
 	for k := range cases {
+	  attempts := 1
+	  if cases[k].Sched && cases[k].Key != "" {
+		attempts = 6
+	  }
+	  for att := 0; att < attempts; att++ {
 		ctx, cancel := context.WithTimeout(context.Background(), 60*time.Second)
 		c := exec.CommandContext(ctx, bin, "-test.run", "^TestVerifReplay$", "-test.count=1", "-test.timeout=50s")
 		c.Dir = filepath.Join(repoDir, rel)
@@ -139,6 +153,10 @@ func replay(pkgPath string, harnessNames []string, cases []replayCase, race bool
 			c.Dir = repoDir
 		}
 		c.Env = append(os.Environ(), "VERIF_REPLAY_FILE="+caseFile, fmt.Sprintf("VERIF_CASE=%d", k), "VERIF_CASE_TIMEOUT=15s", "GORACE=halt_on_error=0")
+		if attempts > 1 {
+			// repeated runs under varying parallelism stand in for schedule control
+			c.Env = append(c.Env, "VERIF_REPEAT=400", fmt.Sprintf("GOMAXPROCS=%d", []int{4, 2, 16, 8, 3, 1}[att]))
+		}
 		var o bytes.Buffer
 		c.Stdout, c.Stderr = &o, &o
 		runErr := c.Run()
@@ -161,7 +179,7 @@ func replay(pkgPath string, harnessNames []string, cases []replayCase, race bool
 		}
 		if r.Outcome == "crash" {
 			switch {
-			case ctx.Err() != nil || strings.Contains(txt, "test timed out"):
+			case errors.Is(ctx.Err(), context.DeadlineExceeded) || strings.Contains(txt, "test timed out"):
 				r.Outcome = "hang"
 			case strings.Contains(txt, "all goroutines are asleep"):
 				r.Outcome = "deadlock"
@@ -180,6 +198,10 @@ func replay(pkgPath string, harnessNames []string, cases []replayCase, race bool
 		}
 		_ = runErr
 		results[k] = r
+		if attempts > 1 && expectMatches(cases[k].Expect, r.Outcome) {
+			break
+		}
+	  }
 	}
 	return results, nil
 }
@@ -273,7 +295,7 @@ func report(cc *checkCfg, tier string, seed int, res *results, ran []*harnessCfg
 		totalDecisions += hr.Decisions
 		pp := perPkg[h.Pkg]
 		for _, v := range sortedViolations(hr) {
-			pp.cases = append(pp.cases, replayCase{Harness: h.Name, Vector: v.Vector, Expect: v.Expect, Key: v.Key, Race: v.Kind == "race"})
+			pp.cases = append(pp.cases, replayCase{Harness: h.Name, Vector: v.Vector, Expect: v.Expect, Key: v.Key, Race: v.Kind == "race", Sched: h.Delays > 0 || h.Preempt > 0})
 			pp.names[h.Name] = true
 			if v.Kind == "race" {
 				pp.raceAny = true
@@ -354,7 +376,7 @@ func report(cc *checkCfg, tier string, seed int, res *results, ran []*harnessCfg
 				continue
 			}
 			if strings.HasPrefix(st, "UNCONFIRMED") {
-				if v.Kind == "race" || v.Kind == "deadlock" {
+				if hc := cfgOf[h.Name]; v.Kind == "race" || v.Kind == "deadlock" || (hc != nil && (hc.Delays > 0 || hc.Preempt > 0)) {
 					lines = append(lines, fmt.Sprintf("UNCONFIRMED harness=%s key=%q (%s) native: %s", h.Name, v.Key, v.Msg, st))
 					continue
 				}
